@@ -45,6 +45,13 @@ class Replay(object):
             return {"delivered": any(x[0] == act["c"] and x[1] == mid for x in w.shown),
                     "shown_elsewhere": [x[0] for x in w.shown if x[1] == mid and x[0] != act["c"]],
                     "times": len([x for x in w.shown if x[1] == mid])}
+        if n == "Notify":
+            from yowsup.structs import ProtocolTreeNode
+            srv = w.server
+            srv.push(w.acc(act["h"]), ProtocolTreeNode("notification", {"t": str(srv.now()), "id": "idn-%d" % srv.now(), "from": w.acc(act["c"]).jid, "type": "encrypt"},
+                                                      [ProtocolTreeNode("identity")]), {"k": "notification"})
+            w.settle(cap=300)
+            return {}
         if n == "Reinstall":
             a = w.acc(act["c"])
             a.reinstall()
@@ -151,8 +158,8 @@ def run(only=None):
             paths = g.transition_cover(rng)
             if thorough:
                 paths += g.random_walks(300, 14, rng)
-            elif len(paths) > 260:
-                paths = rng.sample(paths, 260)
+            elif len(paths) > 650:
+                paths = rng.sample(paths, 650)
             if only is not None:
                 paths = []
             covered = set()
